@@ -1,0 +1,13 @@
+//go:build !verif
+
+// Package verifhook provides named yield points for the external
+// verification harness. Without the "verif" build tag they are empty
+// functions that the compiler inlines away.
+package verifhook
+
+// Step marks a point at which the harness may switch to another request.
+func Step(op string, detail string) {}
+
+// Await marks a point at which the caller is about to block until ready
+// reports true.
+func Await(op string, ready func() bool) {}
